@@ -242,6 +242,16 @@ def oracle_positions(harness, n, seed):
     return res
 
 
+def oracle_heavy(harness, n, seed, min_polls=300):
+    """positions whose depth-1 search alone takes >= min_polls x 10 000 nodes (selected by measuring)"""
+    res = []
+    for line in oracle(harness, "heavy", ["--n", n, "--seed", seed, "--min-polls", min_polls]):
+        f = line.split("\t")
+        if f[0] == "pos":
+            res.append({"root": f[1], "moves": f[2], "fen": f[3], "legal": f[4].split()})
+    return res
+
+
 def oracle_games(harness, n, seed, max_plies):
     res = []
     for line in oracle(harness, "games", ["--n", n, "--seed", seed, "--max-plies", max_plies]):
